@@ -91,6 +91,8 @@ func buildTask(c *Case, trace string, explicitSingleVariation bool) *task.Task {
 		mid := ""
 		if k%2 == 0 {
 			mid = " false;"
+		} else {
+			mid = " false | cat;" // (nor does a pipeline whose last part succeeds)
 		}
 		cmds = append(cmds, fmt.Sprintf(`echo S >> "$TRACE";%s echo "j.${V:-1}.%d" >> "$TRACE"; echo "j.${V:-1}.%d"; echo E >> "$TRACE"; exit ${F%d:-0}`, mid, k, k, k))
 	}
